@@ -139,6 +139,8 @@ package sync
 // the finalized block the reports are marked against is never above the one the node just reported (C06)
 //@   assert call:reportBlocks arg3 <= bigval(lastFinalizedBlock.Number)
 //@   assert call:reportEmptyBlock arg4 <= bigval(lastFinalizedBlock.Number)
+// the download loop is left only through the Done case of its own context, or at the iteration limit its tests set
+//@   ensures[stops-only-when-its-context-ended] ctxEnded || d.stopDownloaderOnIterationN != 0
 //@   requires d != nil && d.log != nil && d.EVMDownloaderInterface != nil
 //@   requires scanNext == fromBlock && !scanGap && fromBlock < 9223372036854775808 && d.syncBlockChunkSize < 4294967296
 //@   requires coveredTo + 1 == fromBlock && !cancelSeen && fromBlock <= chainTip + 1
